@@ -371,6 +371,7 @@ Definition try_elim_identity (m : model) (k : vid) : model :=
     match n_ins n, n_outs n with
     | [Some x], [y] =>
       if is_graph_output m y && (is_graph_input m x || is_initializer m x) then m
+      else if is_graph_output m y && is_graph_output m x then m               (* af1b46d: both are graph outputs *)
       else if is_graph_output m y && negb (produced_beside m k x) then m      (* 0f568df: outer-scope input *)
       else remove_node k (replace_uses true y x m)
     | _, _ => m
